@@ -282,7 +282,78 @@ def run_type(i, label, spec, tier, st):
     dc.periodic_reset(i)
 
 
+DEQUE_SRC = '''
+import collections
+class Row(TypedDict):
+    row_id: int
+@dataclass
+class Acct:
+    acct_id: int = 0
+@dataclass
+class AdminAcct(Acct):
+    level: int = 9
+class Tint(Enum):
+    RED = "r"
+HexInt = NewType("HexInt", int)
+@serializer
+def hex_int(i: HexInt) -> str: return hex(i)
+@dataclass
+class HoldsDeque:
+    q: typing.Deque[Acct] = field(default_factory=collections.deque)
+ITEMS = {
+    "Row": (Row, [{"row_id": 1}, {"row_id": 2}]),
+    "Acct": (Acct, [Acct(1), AdminAcct(2)]),          # a subclass instance is serialized as the declared item type
+    "Tint": (Tint, [Tint.RED]),
+    "HexInt": (HexInt, [255, 16]),
+    "Optional[Acct]": (Optional[Acct], [None, AdminAcct(3)]),
+}
+'''
+
+
+def run_deques(st):
+    """typed deques (the one standard collection serialized through a registered conversion): the image of Deque[X] is the
+    image of List[X] on the same items, for item types whose typed image differs from the image by runtime class, under the
+    three aliasers, bare and as a field"""
+    import collections
+    import typing
+
+    from ..realize import PRELUDE, exec_source
+
+    mod = exec_source(PRELUDE + DEQUE_SRC)
+    for name, (tp, items) in mod.ITEMS.items():
+        for al in ("id", "camel", "custom"):
+            kw = {"aliaser": dc.IMPL_ALIASERS[al]}
+            st.case("deque", name, al)
+            try:
+                exp = apischema.serialize(typing.List[tp], list(items), **kw)
+                got = apischema.serialize(typing.Deque[tp], collections.deque(items), **kw)
+                got2 = apischema.serialize(collections.deque[tp], collections.deque(items), **kw)
+            except Exception as e:
+                st.violation({"label": "deque:" + name, "signature": {"kind": "serialize_exception", "exc": type(e).__name__, "shape": "deque"}, "what": f"Deque[{name}] under {al}: {e!r}"[:300]})
+                continue
+            if got != exp or got2 != exp or type(got) is not list:
+                st.violation({"label": "deque:" + name, "options": [al], "signature": {"kind": "image", "shape": "deque", "item": name}, "what": f"serialize(Deque[{name}], deque(items)) = {got!r} / {got2!r}, serialize(List[{name}], items) = {exp!r} (aliaser {al})"[:400]})
+    h = mod.HoldsDeque(collections.deque([mod.Acct(1), mod.AdminAcct(2)]))
+    exp = {"q": [{"acct_id": 1}, {"acct_id": 2}]}
+    got = apischema.serialize(mod.HoldsDeque, h)
+    if got != exp:
+        st.violation({"label": "deque:field", "signature": {"kind": "image", "shape": "deque", "item": "field"}, "what": f"serialize(HoldsDeque) = {got!r}, expected {exp!r}"})
+    import sys
+
+    sys.modules.pop(mod.__name__, None)
+    apischema.cache.reset()
+
+
 def work(tier, widx, nworkers, st, extra):
+    import os
+
+    if widx == 0 and os.environ.get("VERIF_ONLY") in (None, "", "deque"):
+        try:
+            run_deques(st)
+        except Exception:
+            import traceback
+
+            st.violation({"signature": {"kind": "harness_error"}, "harness_error": True, "what": "deques", "traceback": traceback.format_exc()[-2000:]})
     for i, label, spec in dc.my_types(tier, widx, nworkers):
         run_type(i, label, spec, tier, st)
 
@@ -295,7 +366,7 @@ def main(tier: str, t0: float) -> int:
         st,
         t0,
         rule=RULE,
-        coverage_extra={"exhaustive": True, "bounds": {"nesting": 2}},
+        coverage_extra={"exhaustive": True, "bounds": {"nesting": 2}, "worlds": ["typed deques: image of Deque[X] == image of List[X] for 5 item types x 3 aliasers"]},
         assumptions=[
             "reference image model vf/refmodel/ser.py (aliases, collections as lists, enums by value, flattened merge, serialized methods, one omission formula)",
             "values are of their type (C04 quantifies over values of T)",
